@@ -361,7 +361,15 @@ pub fn main_for<P: Prop>(rest: &[String]) -> i32 {
     install_panic_hook();
 
     if let Some(path) = &args.replay {
-        kf::set_strict(true);
+        // witnesses of recorded findings replay with every exclusion off; a replay file written by
+        // a random search replays under the conditions it was found in (exclusions on), so that it
+        // reproduces the reported violation and not a listed finding that shares its history
+        let path_abs = if path.is_relative() { verif_root().join(path) } else { path.clone() };
+        let own = kf::for_property(P::ID).into_iter().find(|f| f.witness.as_ref().is_some_and(|w| verif_root().join(w) == path_abs));
+        match own {
+            Some(f) => kf::set_strict_for(Some(&f.id)),
+            None => kf::set_strict(std::env::var("VERIF_STRICT").is_ok_and(|v| v == "1")),
+        }
         P::setup();
         let path = if path.is_relative() { verif_root().join(path) } else { path.clone() };
         return match replay_file::<P>(&path) {
@@ -397,13 +405,13 @@ pub fn main_for<P: Prop>(rest: &[String]) -> i32 {
     let mut known_lines = vec![];
     let mut violations: Vec<(String, String)> = vec![]; // (replay path, message)
 
-    // 1. witnesses of known / fixed findings (strict mode)
-    kf::set_strict(true);
+    // 1. witnesses of known / fixed findings (each with its own exclusion lifted)
     P::setup();
     let mut witness_report = vec![];
     for f in kf::for_property(P::ID) {
         let Some(w) = &f.witness else { continue };
         let path = verif_root().join(w);
+        kf::set_strict_for(Some(&f.id));
         match replay_file::<P>(&path) {
             Err(e) => {
                 eprintln!("witness {} unusable: {e}", w);
@@ -425,7 +433,7 @@ pub fn main_for<P: Prop>(rest: &[String]) -> i32 {
             }
         }
     }
-    kf::set_strict(false);
+    kf::set_strict_for(None);
 
     // 2. random search, fanned out
     let n = P::workers(args.tier).max(1);
